@@ -532,7 +532,7 @@ def noise_map_with_signal_to_noise_limit_from(
         origin=data.origin,
     )
 
-    if len(noise_map.native) == 1:
+    if len(data.shape_native) == 1:
         return Array1D(values=noise_map_limit, mask=mask)
     return Array2D(noise_map_limit, mask=mask)
 
